@@ -75,7 +75,7 @@ func (in *Instance) defaults() {
 		in.VCTimeoutMs = v // experimentation only
 	}
 	if in.VCTimeoutMs == 0 {
-		in.VCTimeoutMs = 60000
+		in.VCTimeoutMs = 120000
 	}
 	if in.FeasTimeoutMs == 0 {
 		in.FeasTimeoutMs = 3000
